@@ -204,7 +204,7 @@ fn loop_device_cases(rep: &Report, seed: u64, n: usize) {
 
 pub fn run(tier: Tier, seed: u64) -> i32 {
     let rep = Report::new("C06", "exploration", tier, seed);
-    let n = tier.pick(260, 3000);
+    let n = tier.pick(700, 7000);
     let viols = par_map(n, crate::util::ncpu(), |i| {
         let mut rng = Rng::new(seed).fork(0x0600 + i as u64);
         let sc = cc::gen_scenario(&mut rng, Focus::Mixed, (4, 5), true);
